@@ -330,17 +330,40 @@ class CircuitCompositeOperation(ICircuitCompositeOperation):
         # Relation to a (removed) composite-operation is transferred to the operations it contains.
         # (All relations are transferred before the graph is rebuilt, rebuilding can reset individual relation links)
         for operation in operations:
-            reference_node: Optional[ICircuitOperation] = operation.relation_link.reference_node
-            if isinstance(reference_node, CircuitCompositeOperation) and len(reference_node.decomposed_operations()) > 0:
-                relation_type: RelationType = operation.relation_link.relation_type
-                if relation_type == RelationType.JOINED_START:
-                    operation.relation_link = RelationLink(reference_node.decomposed_operations()[0], relation_type)
+            relation_link: IRelationLink = operation.relation_link
+            relation_type: RelationType = relation_link.relation_type
+            # All nodes the relation refers to (a multi-relation resolves to its latest node only at evaluation time)
+            reference_nodes: List[ICircuitOperation] = []
+            if isinstance(relation_link, MultiRelationLink):
+                reference_nodes = list(relation_link._reference_nodes)
+            elif relation_link.reference_node is not None:
+                reference_nodes = [relation_link.reference_node]
+            if not any(isinstance(node, CircuitCompositeOperation) for node in reference_nodes):
+                continue
+            # An empty composite-operation has no operations to refer to, it stands for the moment its own relation defines
+            while len(reference_nodes) == 1 and isinstance(reference_nodes[0], CircuitCompositeOperation) and len(reference_nodes[0].decomposed_operations()) == 0:
+                empty_relation_link: IRelationLink = reference_nodes[0].relation_link
+                if relation_type == RelationType.JOINED_END or not empty_relation_link.has_reference:
+                    break
+                if empty_relation_link.relation_type != RelationType.JOINED_START:
+                    relation_type = RelationType.FOLLOWED_BY
+                reference_nodes = list(empty_relation_link._reference_nodes) if isinstance(empty_relation_link, MultiRelationLink) else [empty_relation_link.reference_node]
+            transferred_nodes: List[ICircuitOperation] = []
+            for node in reference_nodes:
+                if isinstance(node, CircuitCompositeOperation):
+                    transferred_nodes.extend(node.decomposed_operations())
                 else:
-                    operation.relation_link = MultiRelationLink(
-                        _reference_nodes=reference_node.decomposed_operations(),
-                        _relation_to_group=MultiRelationType.LATEST,
-                        _relation_type=relation_type,
-                    )
+                    transferred_nodes.append(node)
+            if len(transferred_nodes) == 0:
+                continue
+            if relation_type == RelationType.JOINED_START and len(reference_nodes) == 1:
+                operation.relation_link = RelationLink(transferred_nodes[0], relation_type)
+            else:
+                operation.relation_link = MultiRelationLink(
+                    _reference_nodes=transferred_nodes,
+                    _relation_to_group=MultiRelationType.LATEST,
+                    _relation_type=relation_type,
+                )
         for operation in tqdm(operations, desc="Flatten Circuit Graph"):
             CircuitGraphBranch.add_to_graph(
                 graph=flatten_circuit_graph,
